@@ -369,6 +369,33 @@ theorem c01_dichotomy (wr : Wiring) (φ : Faults) (w : World) (pkt : Packet) :
   | false => exact Or.inr ⟨rfl, ibcRecv_error_commits_nothing wr φ w pkt hs⟩
 
 
+/-! ### C16, third clause — acts on, forwards and records the credited coin (here because it needs the stage lemmas above) -/
+
+/-- **The coin recorded is the coin credited.** On the chain's wiring, when an orbiter packet is acknowledged with success the one
+statistics update is made with attributes whose source side is the packet's channel and exactly the coin ICS-20 released
+(`c16_balance_is_credit`: that release is the one movement of the wrapped application), and whose destination denomination is
+still that denomination: the incoming total of the route grows by the credited amount under the credited denomination, the
+outgoing total — under the same denomination — by the amount the forwarding request carried (`c06_sends_final_coin`). -/
+theorem c16_records_credited_coin (cfg : Cfg) (π : OneofOrder) (φ : Faults) (w : World) (pkt : Packet) (t : TransferAttrs) (p : Payload)
+    (hs : (ibcRecv (appWiring cfg π) φ w pkt).ack.isSuccess = true) (ha : adaptPacket (appWiring cfg π) pkt = .ok (.orbiter t p)) :
+    ∃ t' f a, p.forwarding = some f ∧ f.attrs = some a ∧
+      (ibcRecv (appWiring cfg π) φ w pkt).orb = (updateStats w.orb t' f).1 ∧
+      t'.srcProtocol = PROTOCOL_IBC ∧ t'.srcCounterparty = pkt.dstChan ∧
+      t'.srcDenom = t.srcDenom ∧ t'.srcAmount = t.srcAmount ∧ t'.dstDenom = t.srcDenom ∧ 0 < t'.dstAmount ∧
+      ((updateStats w.orb t' f).2 = true → ∀ k,
+        C12.amtOf (ibcRecv (appWiring cfg π) φ w pkt).orb k =
+          ((C12.amtOf w.orb k).1 + (if k = ({ srcProto := PROTOCOL_IBC, srcCp := pkt.dstChan, dstId := ccidString f.protocolId a.counterpartyID, denom := t.srcDenom } : AmtKey) then C12.incr t.srcAmount else 0),
+           (C12.amtOf w.orb k).2 + (if k = ({ srcProto := PROTOCOL_IBC, srcCp := pkt.dstChan, dstId := ccidString f.protocolId a.counterpartyID, denom := t.srcDenom } : AmtKey) then C12.incr t'.dstAmount else 0))) := by
+  obtain ⟨c2, c3, t', f, a, hda, hf, hfa, _, _, _, hpos, ho⟩ := C12.c12_success (appWiring cfg π) φ w pkt t p hs ha
+  obtain ⟨s1, s2, s3, s4⟩ := C12.dispatchActions_src (C12.appWiring_srcStable cfg π) φ w.orb p.preActions c2 c3 t t' hda
+  obtain ⟨h1, h2, hdd, _⟩ := C12.c12_source_from_packet _ pkt t p ha
+  have hden : t'.dstDenom = t.srcDenom := (dispatchActions_le _ _ _ _ _ hda).2.trans hdd
+  refine ⟨t', f, a, hf, hfa, ho, s1.trans h1, s2.trans h2, s3, s4, hden, hpos, ?_⟩
+  intro hok k
+  rw [ho]
+  have := (C12.c12_update_spec w.orb t' f a hfa hok).1 k
+  rw [this, s1, s2, s3, s4, hden, h1, h2]
+
 /-! ### histories -/
 
 /-- What was sent directly to an account along a history (anyone may send coins to the orbiter account). -/
